@@ -1057,7 +1057,9 @@ func (dsc *dataStoreCommand) flush() {
 // need more than one database (inside EXEC it is already held, see fnExec).
 func (dsc *dataStoreCommand) flushAll(dss *dataStoreSet, inExec bool) {
 	if !inExec {
+		simBeforeLock(&multiDataStoreLock, "multiDataStoreLock")
 		multiDataStoreLock.Lock()
+		defer simAfterUnlock(&multiDataStoreLock, "multiDataStoreLock")
 		defer multiDataStoreLock.Unlock()
 	}
 
